@@ -1,7 +1,7 @@
 (** Property C14 - streamed text stops before stop sequences and is always whole UTF-8.
-    Theorems only; every proof is a reference to StopProofs.v. *)
+    Theorems only; every proof is a reference to StopProofs.v / Utf8Proofs.v. *)
 From Coq Require Import List NArith Bool.
-From V Require Import Common.Bytes Runner.Stop Runner.StopProofs.
+From V Require Import Common.Bytes Runner.Stop Runner.StopProofs Runner.Utf8Proofs.
 Import ListNotations.
 
 (** every state reachable by feeding any token list, then one more batch boundary *)
@@ -86,10 +86,109 @@ Proof.
 Qed.
 Print Assumptions C14_listorder_findstop_refuted.
 
+
+(** ** the property's own hypothesis: "when the generated text is valid UTF-8".
+    [gen_text ts] is the text of the scripted pieces up to the first EOS; the hypothesis below also admits a text
+    that is cut inside its last character (limit / script end): it only has to be a prefix of valid UTF-8. *)
+
+(** the ghost text of the model is the scripted text consumed so far *)
+Theorem C14_gen_is_script_prefix : forall stops limit ts,
+  Prefix (gen (final stops limit ts)) (gen_text ts).
+Proof. intros. apply gen_script_prefix. Qed.
+Print Assumptions C14_gen_is_script_prefix.
+
+(** valid generated text => no flush ever drops a byte (discharges [lossless_run]) *)
+Theorem C14_valid_text_lossless : forall stops limit ts rest,
+  (forall t, In t stops -> t <> []) -> utf8_valid (gen_text ts ++ rest) = true -> lossless_run stops limit init ts.
+Proof. intros stops limit ts rest H1 H2. exact (valid_text_lossless stops limit H1 ts rest H2). Qed.
+Print Assumptions C14_valid_text_lossless.
+
+(** the unconditional prefix claim is false of the faithful model (and of the code: known finding
+    C14-invalid-utf8-dropped): an invalid byte is dropped by a mid-stream flush *)
+Definition C14_prefix_full : Prop := forall stops limit ts,
+  (forall t, In t stops -> t <> []) -> Prefix (output (final stops limit ts)) (gen (final stops limit ts)).
+Theorem C14_prefix_refuted : ~ C14_prefix_full.
+Proof.
+  intros H. specialize (H [] 0 [Piece [255]%N; Piece [97]%N; EOS] (fun t (Hin : In t []) => match Hin with end)).
+  vm_compute in H. destruct H as [r Hr]. discriminate Hr.
+Qed.
+Print Assumptions C14_prefix_refuted.
+Theorem C14_prefix_partial : forall stops limit ts rest,
+  (forall t, In t stops -> t <> []) -> utf8_valid (gen_text ts ++ rest) = true ->
+  Prefix (output (final stops limit ts)) (gen (final stops limit ts)) /\
+  Prefix (output (final stops limit ts)) (gen_text ts).
+Proof.
+  intros stops limit ts rest H1 H2.
+  pose proof (C14_prefix stops limit ts H1 (valid_text_lossless stops limit H1 ts rest H2)) as Hp.
+  split; [exact Hp|]. eapply Prefix_trans; [exact Hp | apply gen_script_prefix].
+Qed.
+Print Assumptions C14_prefix_partial.
+
+(** likewise stop-freeness of the output: with stops ["ab"], pieces "a", 0xff, "b" stream "ab" *)
+Definition C14_stop_free_full : Prop := forall stops limit ts,
+  (forall t, In t stops -> t <> []) -> forall t, In t stops -> ~ Infix t (output (final stops limit ts)).
+Theorem C14_stop_free_refuted : ~ C14_stop_free_full.
+Proof.
+  intros H.
+  assert (Hne : forall t, In t [[97; 98]%N] -> t <> []) by (intros t [<-|[]]; discriminate).
+  apply (H [[97; 98]%N] 0 [Piece [97]%N; Piece [255]%N; Piece [98]%N; EOS] Hne [97; 98]%N (or_introl eq_refl)).
+  exists [], []. vm_compute. reflexivity.
+Qed.
+Print Assumptions C14_stop_free_refuted.
+Theorem C14_stop_free_partial : forall stops limit ts rest,
+  (forall t, In t stops -> t <> []) -> utf8_valid (gen_text ts ++ rest) = true ->
+  forall t, In t stops -> ~ Infix t (output (final stops limit ts)).
+Proof. intros stops limit ts rest H1 H2. apply C14_stop_free; [exact H1 | exact (valid_text_lossless stops limit H1 ts rest H2)]. Qed.
+Print Assumptions C14_stop_free_partial.
+
+(** valid generated text: every streamed piece is whole UTF-8 and contains no stop sequence *)
+Theorem C14_pieces_whole_and_stop_free : forall stops limit ts rest,
+  (forall t, In t stops -> t <> []) -> utf8_valid (gen_text ts ++ rest) = true ->
+  Forall (fun p => utf8_valid p = true /\ forall t, In t stops -> ~ Infix t p) (out (final stops limit ts)).
+Proof.
+  intros stops limit ts rest H1 H2. exact (pieces_whole_and_stop_free stops limit H1 ts rest H2).
+Qed.
+Print Assumptions C14_pieces_whole_and_stop_free.
+
+(** valid generated text: while the sequence is generating no stop has been generated; once finished the output is
+    the generated text, or the part of it before the EARLIEST stop, less a character cut at the very end *)
+Theorem C14_exact_valid_text : forall stops limit ts rest,
+  (forall t, In t stops -> t <> []) -> utf8_valid (gen_text ts ++ rest) = true ->
+  (fin (run stops limit ts) = None -> forall t, In t stops -> ~ Infix t (gen (run stops limit ts))) /\
+  (fin (final stops limit ts) <> None ->
+   exists F body,
+    ((StopFree stops (gen (final stops limit ts)) /\ F ++ body = gen (final stops limit ts)) \/
+     (exists k, EarliestStop stops (gen (final stops limit ts)) k /\ F ++ body = firstn k (gen (final stops limit ts)))) /\
+    output (final stops limit ts) = F ++ trim_valid body).
+Proof.
+  intros stops limit ts rest H1 H2. pose proof (valid_text_lossless stops limit H1 ts rest H2) as Hl. split.
+  - intros Hf. exact (C14_ends_at_first_stop stops limit ts H1 Hl Hf).
+  - intros Hf. exact (C14_finished_exact stops limit ts H1 Hl Hf).
+Qed.
+Print Assumptions C14_exact_valid_text.
+
+(** "otherwise it ends at the end-of-sequence token or the prediction limit": a script that contains EOS, or is at
+    least as long as a positive limit, always ends; and never more than [limit] tokens are sampled *)
+Theorem C14_always_ends : forall stops limit ts,
+  In EOS ts \/ (0 < limit /\ limit <= length ts) -> fin (final stops limit ts) <> None.
+Proof. intros stops limit ts. apply always_ends. Qed.
+Print Assumptions C14_always_ends.
+
+Theorem C14_limit_respected : forall stops limit ts, 0 < limit -> npred (final stops limit ts) <= limit.
+Proof. intros stops limit ts. apply limit_respected. Qed.
+Print Assumptions C14_limit_respected.
+
 (** non-vacuity: a run with a stop split across pieces and a multi-byte character split across pieces meets
     the hypotheses, and ends before the stop *)
 Example C14_nonvacuous :
   let stops := [[97; 98]; [98]]%N in
   let ts := [Piece [120; 195]%N; Piece [169]%N; Piece [97]%N; Piece [98; 121]%N; Piece [122]%N] in
   lossless_run stops 0 init ts /\ output (final stops 0 ts) = [120; 195; 169]%N /\ fin (final stops 0 ts) = Some RStop.
+Proof. vm_compute. repeat split. Qed.
+
+(** non-vacuity of the valid-text hypothesis: a euro sign one byte per token, the limit falling inside a second one *)
+Example C14_valid_text_nonvacuous :
+  let ts := [Piece [226]%N; Piece [130]%N; Piece [172]%N; Piece [97]%N; Piece [226]%N; Piece [130]%N] in
+  utf8_valid (gen_text ts ++ [172]%N) = true /\ out (final [[97; 98]%N] 6 ts) = [[226; 130; 172]%N; [97]%N] /\
+  fin (final [[97; 98]%N] 6 ts) = Some RLength.
 Proof. vm_compute. repeat split. Qed.
